@@ -90,6 +90,14 @@ Definition repr_of (bad : list (nat * exn)) : val -> st jst2 -> res * st jst2 :=
                 else (RExc e (XId (2000 + n)), s)
               | None => (ROk VOpaque, s)
               end
+  (* the callable itself: functools.partial(obj.m) / a callable object whose repr shows an object with a raising
+     __repr__; listed under the codes 999 (decorated function) and 998 (other_func) *)
+  | VCallable c =>
+    let n := match c with CFunc => 999 | COther => 998 end in
+    match find (fun p => Nat.eqb (fst p) n) bad with
+    | Some (_, e) => (RExc e (XId (2000 + n)), s)
+    | None => (ROk VOpaque, s)
+    end
   | _ => (ROk VOpaque, s)
   end.
 
@@ -192,7 +200,7 @@ Definition enc_callee (c : callee) : Z := match c with CFunc => 0 | COther => 1 
 Definition enc_val (v : val) : list Z :=
   match v with
   | VObj n => [0; zn n] | VNone => [1; 0] | VCls n => [2; zn n] | VOpaque => [3; 0]
-  | VPending c _ _ => [4; enc_callee c] | VWrapperCoro _ _ => [5; 0]
+  | VPending c _ _ => [4; enc_callee c] | VWrapperCoro _ _ => [5; 0] | VCallable c => [9; enc_callee c]
   end.
 Definition enc_res (r : res) : list Z :=
   match r with
@@ -302,8 +310,9 @@ Definition repr_traced (shortcut : string) : bool :=
   | None => true
   end.
 
-Definition eval_class (bad0 : list (nat * exn)) (shortcut : string) (own_repr : bool) (n : dname) (f : fspec) (m : member) (acc : access) (self cls0 sub : val) (a : args) (k : kwargs) : list Z :=
-  let bad := bad0 ++ (if own_repr && repr_traced shortcut then [(50, RecursionErrorC); (51, RecursionErrorC)] else [])%nat in
+Definition eval_class (bad0 : list (nat * exn)) (shortcut : string) (own_repr : bool) (repr_calls_member : bool) (n : dname) (f : fspec) (m : member) (acc : access) (self cls0 sub : val) (a : args) (k : kwargs) : list Z :=
+  (* repr_calls_member: the class's (untraced) __repr__ calls another method of the class - and every method is traced *)
+  let bad := bad0 ++ (if (own_repr && repr_traced shortcut) || repr_calls_member then [(50, RecursionErrorC); (51, RecursionErrorC)] else [])%nat in
   let fn := desc2 CFunc f [] in
   let l := {| l_name := n; l_rv := VNone; l_rules := [];
               l_shape := {| ks_name := "f"; ks_first_self := false; ks_star_args := true; ks_staticmethod := false;
